@@ -26,6 +26,7 @@
 import Gts.Lemmas.GbReadWrite
 import Gts.Lemmas.GbFixed
 import Gts.Lemmas.GbLearn
+import Gts.Lemmas.GbEdit
 import Gts.Lemmas.GbLocRT
 import Gts.Lemmas.GbProps
 namespace Gts.C01
@@ -606,5 +607,98 @@ example : (∀ x ∈ streamWitness, x.1.origin = .residues x.2 ∧ Writable Regi
       decide +kernel
     exact ⟨(hw x hx).1, (hw x hx).2, fun f hf => locRT_of_canon f.loc (List.all_eq_true.mp (hc x hx) f hf)⟩
   · decide +kernel
+
+/-! ## closure of the writable domain under the edit operations
+
+`ofSeq F s` is the GenBank record `GenBank{F, s.feats, NewOrigin(s.bytes)}` that `WithFeatures` /
+`WithBytes` build around the result `s` of an edit (models of the edits: `Gts/Model/Seq.lean`,
+`SeqNuc.lean`; the header `F` is untouched: `GenBankFields` is neither `Shiftable` nor
+`Expandable`).  These theorems cover the part of the domain that `Writable` states — header, keys,
+qualifiers, residues, LOCUS length.  NOT covered: that the edited LOCATIONS are again canonical
+(`Loc.canonP`, needed for `LocRT`; that is a statement about `Reverse` / `Expand` / `Normalize` and
+the join reduction, C02–C06), and `gts.Slice`, whose `GenBankFields.Slice` rewrites the header
+(REGION, clipped and renumbered references). -/
+
+/-- **Frame.**  `Writable` looks at the table only through key and `Props` of each feature and at
+the residues only through "printable, fewer than 10^9" and the LOCUS length: a record with the same
+header whose features each carry key and `Props` of some old feature, with printable residues and
+a LOCUS length that is the old one, or positive, or zero without CONTIG, is `Writable`. -/
+theorem writable_frame (reg : Registry) (F : Fields) (s s' : Seq)
+    (hw : Writable reg (ofSeq F s) s.bytes = true)
+    (htab : ∀ g ∈ s'.feats, ∃ f ∈ s.feats, g.key = f.key ∧ g.props = f.props)
+    (hbase : ∀ c ∈ s'.bytes, Origin.isBase c = true) (hlen : s'.bytes.length < 10 ^ 9)
+    (hL : s'.bytes.length = s.bytes.length ∨ 0 < s'.bytes.length ∨ F.contigAcc.isEmpty = true) :
+    Writable reg (ofSeq F s') s'.bytes = true :=
+  writable_ofSeq reg F s s' hw (fun g hg => featW_fromTable reg s.feats (writable_feats reg F s hw) g (htab g hg))
+    hbase hlen hL
+
+/-- **`gts.Reverse`** keeps the record writable. -/
+theorem writable_reverse (reg : Registry) (F : Fields) (s : Seq) (hw : Writable reg (ofSeq F s) s.bytes = true) :
+    Writable reg (ofSeq F s.reverse) s.reverse.bytes = true :=
+  GenBank.writable_reverse reg F s hw
+
+/-- **`gts.Complement`** never panics and keeps the record writable (the complement of a printable
+byte is printable). -/
+theorem writable_complement (reg : Registry) (F : Fields) (s : Seq) (hw : Writable reg (ofSeq F s) s.bytes = true) :
+    ∃ s', s.complementRec = some s' ∧ Writable reg (ofSeq F s') s'.bytes = true :=
+  ⟨_, complementRec_eq s, GenBank.writable_complement reg F s hw⟩
+
+/-- **`gts.Rotate`** by any amount keeps the record writable. -/
+theorem writable_rotate (reg : Registry) (F : Fields) (s : Seq) (n : Int)
+    (hw : Writable reg (ofSeq F s) s.bytes = true) :
+    Writable reg (ofSeq F (s.rotate n)) (s.rotate n).bytes = true :=
+  GenBank.writable_rotate reg F s n hw
+
+/-- **`gts.Delete`** / **`gts.Erase`** of `length ≥ 0` residues keep the record writable when residues
+remain or the record has no CONTIG.  (A record emptied of its residues takes its LOCUS length from
+the CONTIG region, which `Writable` does not bound.) -/
+theorem writable_delete (reg : Registry) (F : Fields) (s : Seq) (offset length : Int) (hlen0 : 0 ≤ length)
+    (hw : Writable reg (ofSeq F s) s.bytes = true)
+    (hne : 0 < (s.delete offset length).bytes.length ∨ F.contigAcc.isEmpty = true) :
+    Writable reg (ofSeq F (s.delete offset length)) (s.delete offset length).bytes = true :=
+  GenBank.writable_delete reg F s offset length hlen0 hw hne
+
+theorem writable_erase (reg : Registry) (F : Fields) (s : Seq) (offset length : Int) (hlen0 : 0 ≤ length)
+    (hw : Writable reg (ofSeq F s) s.bytes = true)
+    (hne : 0 < (s.erase offset length).bytes.length ∨ F.contigAcc.isEmpty = true) :
+    Writable reg (ofSeq F (s.erase offset length)) (s.erase offset length).bytes = true :=
+  GenBank.writable_erase reg F s offset length hlen0 hw hne
+
+/-- **`gts.Insert`**, **`gts.Embed`**, **`gts.Concat`** of two writable records (the guest under any
+header `G`) give a writable record with the host's header, as long as the residues together stay
+below 10^9. -/
+theorem writable_insert (reg : Registry) (F G : Fields) (host guest : Seq) (index : Int)
+    (hw : Writable reg (ofSeq F host) host.bytes = true) (hg : Writable reg (ofSeq G guest) guest.bytes = true)
+    (hsum : host.bytes.length + guest.bytes.length < 10 ^ 9) :
+    Writable reg (ofSeq F (host.insert index guest)) (host.insert index guest).bytes = true :=
+  GenBank.writable_insert reg F G host guest index hw hg hsum
+
+theorem writable_embed (reg : Registry) (F G : Fields) (host guest : Seq) (index : Int)
+    (hw : Writable reg (ofSeq F host) host.bytes = true) (hg : Writable reg (ofSeq G guest) guest.bytes = true)
+    (hsum : host.bytes.length + guest.bytes.length < 10 ^ 9) :
+    Writable reg (ofSeq F (host.embed index guest)) (host.embed index guest).bytes = true :=
+  GenBank.writable_embed reg F G host guest index hw hg hsum
+
+theorem writable_concat (reg : Registry) (F G : Fields) (a b : Seq)
+    (hw : Writable reg (ofSeq F a) a.bytes = true) (hg : Writable reg (ofSeq G b) b.bytes = true)
+    (hsum : a.bytes.length + b.bytes.length < 10 ^ 9) :
+    Writable reg (ofSeq F (Seq.concat2 a b)) (Seq.concat2 a b).bytes = true :=
+  GenBank.writable_concat2 reg F G a b hw hg hsum
+
+/-- non-vacuity: a host with a source feature and a CDS with a learned qualifier and a toggle, and a
+guest, are writable under the initial registry; the edits change the record -/
+def editHost : Seq :=
+  ⟨[⟨"source", .ranged 0 12 false false, [["organism", "Homo sapiens"], ["focus", ""]]⟩,
+    ⟨"CDS", .joined [.ranged 1 4 false false, .ranged 6 9 false false], [["my_tag", "v"], ["codon_start", "1"]]⟩],
+   bs "acgtacgtacgt"⟩
+
+def editGuest : Seq := ⟨[⟨"gene", .compl (.ranged 0 3 false false), [["gene", "x"]]⟩], bs "ttt"⟩
+
+example : Writable Registry.default (ofSeq locusWitness editHost) editHost.bytes = true ∧
+    Writable Registry.default (ofSeq Fields.empty editGuest) editGuest.bytes = false ∧
+    Writable Registry.default (ofSeq sampleRecord.fields editGuest) editGuest.bytes = true ∧
+    editHost.reverse.bytes ≠ editHost.bytes ∧ 0 < (editHost.delete 2 5).bytes.length ∧
+    editHost.bytes.length + editGuest.bytes.length < 10 ^ 9 := by
+  refine ⟨by decide +kernel, by decide +kernel, by decide +kernel, by decide +kernel, by decide +kernel, by decide +kernel⟩
 
 end Gts.C01
